@@ -404,6 +404,10 @@ func (t *Tombstoner) commit() error {
 	}
 	verifPoint("tombstone.committed", filepath.Dir(t.tombstonePath()))
 
+	// The tombstone file exists (or has grown) only now: what was learnt about it while the
+	// entries were pending - possibly that there is none - no longer holds.
+	t.statsLoaded = false
+
 	t.pendingFile = nil
 	t.bw = nil
 	t.gz = nil
